@@ -98,6 +98,13 @@ class RBFRegressor(BaseRegressor):
         This convention is chosen to avoid division by :math:`|x|` when
         the terms may be cancelled out, as :math:`f'(r)` often has a term
         in :math:`r`.
+
+        As in :class:`scipy.interpolate.Rbf`,
+        only the multiquadric, inverse multiquadric and Gaussian functions
+        depend on :math:`\epsilon`;
+        the linear, cubic, quintic and thin plate functions
+        are evaluated at :math:`r=|x|`
+        and so are their derivatives.
         """
 
         TOL = finfo(float).eps
@@ -178,12 +185,7 @@ class RBFRegressor(BaseRegressor):
             Returns:
                 The derivative of the function.
             """
-            return (
-                (norm_input_data > cls.TOL)
-                * input_data
-                / eps
-                / (norm_input_data + cls.TOL)
-            )
+            return (norm_input_data > cls.TOL) * input_data / (norm_input_data + cls.TOL)
 
         @classmethod
         def der_cubic(
@@ -202,7 +204,7 @@ class RBFRegressor(BaseRegressor):
             Returns:
                 The derivative of the function.
             """
-            return 3 * norm_input_data * input_data / eps**3
+            return 3 * norm_input_data * input_data
 
         @classmethod
         def der_quintic(
@@ -221,7 +223,7 @@ class RBFRegressor(BaseRegressor):
             Returns:
                 The derivative of the function.
             """
-            return 5 * norm_input_data**3 * input_data / eps**5
+            return 5 * norm_input_data**3 * input_data
 
         @classmethod
         def der_thin_plate(
@@ -245,8 +247,7 @@ class RBFRegressor(BaseRegressor):
             return (
                 (norm_input_data > cls.TOL)
                 * input_data
-                / eps**2
-                * (1 + 2 * log(norm_input_data / eps + cls.TOL))
+                * (1 + 2 * log(norm_input_data + cls.TOL))
             )
 
     def _fit(self, input_data: RealArray, output_data: RealArray) -> None:
